@@ -44,7 +44,8 @@ UFUNC2 = {"add", "sub", "mul"}
 def drivers(tier):
     # two keys = two build groups of two compile jobs each (at most 3 compile jobs at once on the shared machine);
     # asan: -O0 -g0 (compile time; the sanitizer checks are the same)
-    return {"c14": [("c14.cpp", "ndebug", ()), ("c14.cpp", "asan", ("-O0", "-g0"))],
+    # c14g (view DAGs; the graph is computed at compile time: one flavour) is built with the c14 group: 3 jobs
+    return {"c14": [("c14.cpp", "ndebug", ()), ("c14.cpp", "asan", ("-O0", "-g0")), ("c14g.cpp", "ndebug", ())],
             "c14x": [("c14x.cpp", "ndebug", ()), ("c14x.cpp", "asan", ("-O0", "-g0"))]}
 
 
@@ -58,6 +59,10 @@ def _table(src, macro):
 PIPES = [(n, int(k)) for n, k in _table("c14.cpp", "PIPES")]          # (pipeline, arity)
 TREES = [(n, int(g)) for n, g in _table("c14x.cpp", "TREES")]         # (tree, get_compute_graph compiles)
 FIXTREES = [n for n, _ in _table("c14x.cpp", "FIXTREES")]
+def _dags():
+    txt = open(os.path.join(os.path.dirname(__file__), "..", "..", "drivers", "c14g.cpp")).read()
+    return re.findall(r'X\("([^"]+)",', txt[txt.index("#define DAGS(X)"):])
+DAGS = _dags()                                                         # view DAG programs
 def _comps(t): return [[]] if t == 0 else [[k] + r for k in range(1, t + 1) for r in _comps(t - k)]
 def splits(arity):
     """every way to supply the operands: all compositions of `arity`, plus all compositions of arity+1 in which the
@@ -112,6 +117,8 @@ def gen_cases(rng, tier):
             n = rng.choice([1, 2, 2, 3, 3])
             stream = "trees-wf" if wf(parse(name)) else "trees-outside-wf"
             out.append((stream, "ext S:dyn S:%s S:%s %s %s %s" % ("g1" if g else "g0", name, rnd(rng, n), rnd(rng, n), rnd(rng, n)), "c14x"))
+    for prog in DAGS:
+        out.append(("dags", "dag S:%s" % prog, "c14"))
     for name in FIXTREES:
         for _ in range(reps):
             out.append(("trees-fixed-kind", "ext S:fix S:g0 S:%s %s %s %s" % (name, rnd(rng, 2), rnd(rng, 2), rnd(rng, 2)), "c14x"))
@@ -124,6 +131,7 @@ def nontrivial(line):
     p = line.split(" ")
     if p[0] == "pipe": return "*" in p[1]
     if p[0] == "ext": return depth(parse(p[3][2:])) >= 2
+    if p[0] == "dag": return p[1].count(";") >= 3
     return False
 
 
